@@ -2,7 +2,7 @@
    MapProofs and WorldProofs; the Prop_Cxx.v files restate them and close them by [exact]. *)
 From stdpp Require Import gmap list.
 From Coq Require Import NArith Lia.
-From G Require Import Arith Monad Types Inv Raw RawProofs Map MapProofs IterProofs CloneProofs Cost EntryProofs EntryCost Fill WorldProofs.
+From G Require Import Arith Monad Types Inv Raw RawProofs Map MapProofs IterProofs CloneProofs Cost EntryProofs EntryCost Ledger Fill WorldProofs.
 Local Open Scope N_scope.
 
 (* every world reachable by a history of (so far: core) operations, from the empty world *)
@@ -597,6 +597,69 @@ Lemma T_C12_D6_witness :
   ref_chain false ∅ (AVac 5 (Some 7)) [SInsertE 1; SOccReplaceKey] [] =
     RPanic PUnwrapNone (<[5 := Elem 5 7 1]> ∅).
 Proof. reflexivity. Qed.
+
+(* ---------------------------------------------------------------- C06 *)
+
+Lemma nd_run {A} (m : M' A) s a s' :
+  nd m -> lite s -> m s = Ok a s' -> dks s' = dks s /\ dvs s' = dvs s /\ lite s'.
+Proof. intros H Hl E. specialize (H s Hl). unfold wpp in H. rewrite E in H. apply H. Qed.
+
+(* storing a new element - with whatever growing (the main table becomes the old one) and
+   carrying (elements move from the old table to the new one) the call performs - drops nothing:
+   the moves leave no copy behind to be dropped and release the old table only once it is empty *)
+Lemma T_C06_moves_drop_nothing c e s a s' :
+  lite s -> rt_insert c e s = Ok a s' -> dks s' = dks s /\ dvs s' = dvs s /\ lite s'.
+Proof. apply nd_run, nd_rt_insert. Qed.
+
+(* HashMap::insert: the duplicate key argument is dropped exactly when the key is present - the
+   displaced value is handed back, not dropped - and nothing at all is dropped otherwise *)
+Lemma T_C06_insert c k kid v s o s' :
+  lite s -> map_insert c k kid v s = Ok o s' ->
+  lite s' /\ dvs s' = dvs s /\
+  match rt_find_pure (s_rt s) k with
+  | Some (_, e) => dks s' = kid :: dks s /\ o = Some (ev e)
+  | None => dks s' = dks s /\ o = None
+  end.
+Proof. intros Hl E. pose proof (map_insert_ledger c k kid v s Hl) as H. unfold wpp in H. rewrite E in H. exact H. Qed.
+
+(* remove_entry / remove / take hand the stored key and value back; the map drops neither, also
+   when the removal releases the (then empty) old table *)
+Lemma T_C06_remove c k s o s' :
+  lite s -> map_remove_entry c k s = Ok o s' -> dks s' = dks s /\ dvs s' = dvs s /\ lite s'.
+Proof. apply nd_run, nd_map_remove_entry. Qed.
+
+(* lookups and in-place updates, reserve / try_reserve (which may move every element), shrink_to
+   and iteration drop nothing *)
+Lemma T_C06_lookup g k w s o s' :
+  lite s -> map_get g k w s = Ok o s' -> dks s' = dks s /\ dvs s' = dvs s /\ lite s'.
+Proof. apply nd_run, nd_map_get. Qed.
+Lemma T_C06_reserve c fallible n s o s' :
+  lite s -> map_reserve c fallible n s = Ok o s' -> dks s' = dks s /\ dvs s' = dvs s /\ lite s'.
+Proof. apply nd_run, nd_map_reserve. Qed.
+Lemma T_C06_shrink c n s o s' :
+  lite s -> rt_shrink_to c n s = Ok o s' -> dks s' = dks s /\ dvs s' = dvs s /\ lite s'.
+Proof. apply nd_run, nd_rt_shrink_to. Qed.
+Lemma T_C06_iter delta s o s' :
+  lite s -> map_iter delta s = Ok o s' -> dks s' = dks s /\ dvs s' = dvs s /\ lite s'.
+Proof. apply nd_run, nd_map_iter. Qed.
+
+(* clear() and dropping the map: every stored key and every stored value - in the new table and
+   among the old table's leftovers alike - is dropped exactly once (the ledger grows by a
+   permutation of the stored objects) and nothing stays behind *)
+Lemma T_C06_clear s a s' :
+  lite s -> rt_clear s = Ok a s' ->
+  lite s' /\ elems (s_rt s') = [] /\
+  dks s' ≡ₚ map ekid (elems (s_rt s)) ++ dks s /\ dvs s' ≡ₚ map ev (elems (s_rt s)) ++ dvs s.
+Proof. intros Hl E. pose proof (rt_clear_ledger s Hl) as H. unfold wpp in H. rewrite E in H. exact H. Qed.
+Lemma T_C06_drop s a s' :
+  lite s -> map_drop s = Ok a s' ->
+  lite s' /\ elems (s_rt s') = [] /\
+  dks s' ≡ₚ map ekid (elems (s_rt s)) ++ dks s /\ dvs s' ≡ₚ map ev (elems (s_rt s)) ++ dvs s.
+Proof. intros Hl E. pose proof (map_drop_ledger s Hl) as H. unfold wpp in H. rewrite E in H. exact H. Qed.
+
+(* the hypothesis [lite] holds in every reachable state: it is part of the invariant *)
+Lemma T_C06_lite_reachable R Esz s : Inv R Esz (s_rt s) -> lite s.
+Proof. apply Inv_lite. Qed.
 
 (* ---------------------------------------------------------------- C17 *)
 
